@@ -120,3 +120,40 @@ def geq_chain(e, bits, bound):
                     (f"(and (= b #b1) (bvuge v {bvlit(Bp, i)}))" if (bound >> i) & 1 else f"(or (= b #b1) (bvuge v {bvlit(Bp, i)}))") + ")")
             e.side.append((f"geq-step-{i}", [f"(declare-const v (_ BitVec {i}))", "(declare-const b (_ BitVec 1))"], body))
     return G[-1]
+
+
+def lex_lt(digits_le, bound, base):
+    """`the integer with these little-endian digits (each already known to be in [0, base)) is < bound`, written
+    as the lexicographic comparison of the digit strings (positional notation: the same mathematical statement as
+    `sum base^i d_i < bound`, without any wide arithmetic)."""
+    n = len(digits_le)
+    if bound >= base ** n:
+        return "true"
+    bd = [(bound // base ** i) % base for i in range(n)]
+    cases = []
+    for i in range(n - 1, -1, -1):
+        if bd[i] == 0:
+            continue
+        hi_eq = [eq(digits_le[j], bd[j]) for j in range(i + 1, n)]
+        cases.append(AND(*hi_eq, lt(digits_le[i], bd[i])))
+    return OR(*cases) if cases else "false"
+
+
+def canonical_digits(e, x, digits_le, base, P, timeout=120):
+    """Specification of a CANONICAL full-width digit decomposition of the field element x (base^n > P), as two
+    conjuncts proved one at a time (cut rule vecmap.prove_then_assume): (A) the digits are in range and their
+    integer value is x + k*P for some k with base^n > k*P; (B) the digit string is lexicographically below
+    P's. Together: value < P, hence k = 0 and value = x. The one-piece statement `x = sum` makes the solver
+    link 255-bit linear arithmetic with the comparison and does not finish in 600 s."""
+    from .vecmap import prove_then_assume
+    n = len(digits_le)
+    v = e.named_sum([(base ** i, d) for i, d in enumerate(digits_le)])
+    rng = AND(*[(isbit(d) if base == 2 else lt(d, base)) for d in digits_le])
+    kmax = (base ** n - 1) // P
+    alts = [eq(x, v)] + [eq(f"(+ {A(x)} {k * P})", v) for k in range(1, kmax + 1)]
+    A_ = AND(rng, OR(*alts))
+    # base 2: the chip's own comparison is a chain of Boolean rows, which pairs with the unsigned bit-vector
+    # reading (measured: bvult 286 s, lexicographic form > 600 s); wider digits: lexicographic form (0.5 s)
+    B_ = f"(bvult {bv_of_bits(digits_le)} {bvlit(P, n)})" if base == 2 else lex_lt(digits_le, P, base)
+    prove_then_assume(e, [("decomposition", A_), ("below-p", B_)], timeout=timeout)
+    return AND(A_, B_)
